@@ -2,7 +2,7 @@ use crate::{
   config::processed::OverflowPolicy,
   error_handling::{InternalErrorReport, InternalErrorSource},
   model::LogEvent,
-  subscriber::actor::{ActorAction, AppenderActor},
+  subscriber::actor::{target_matches_prefix, ActorAction, AppenderActor},
 };
 use fibre::{
   error::TrySendError as FibreTrySendError, mpsc::BoundedSyncSender as FibreMpscBoundedSender,
@@ -15,6 +15,9 @@ pub(crate) struct EventProcessor {
   actors: Vec<AppenderActor>,
   error_tx: Option<FibreMpscBoundedSender<InternalErrorReport>>,
   max_level: LevelFilter,
+  /// Every named logger of the configuration with its additive flag, including loggers that
+  /// are wired to no appender (those appear in no appender's filter rules).
+  logger_gates: Vec<(String, bool)>,
 }
 
 impl EventProcessor {
@@ -31,7 +34,22 @@ impl EventProcessor {
       actors,
       error_tx,
       max_level,
+      logger_gates: Vec::new(),
     }
+  }
+
+  /// Makes the whole logger tree known to the additivity decision. Without this only loggers
+  /// that name at least one appender can win "most specific matching logger".
+  pub(crate) fn with_logger_tree<'a>(
+    mut self,
+    loggers: impl IntoIterator<Item = (&'a str, bool)>,
+  ) -> Self {
+    self.logger_gates = loggers
+      .into_iter()
+      .filter(|(name, _)| *name != "root")
+      .map(|(name, additive)| (name.to_string(), additive))
+      .collect();
+    self
   }
 
   /// The most permissive level any appender can accept. Used as the global
@@ -91,6 +109,15 @@ impl EventProcessor {
     for (prefix, (_, additive)) in rules.iter().flatten() {
       if winner.map_or(true, |(wp, _)| prefix.len() > wp.len()) {
         winner = Some((*prefix, *additive));
+      }
+    }
+    // A logger wired to no appender is in no actor's rules but still takes part: a
+    // non-additive one swallows the events below it.
+    for (name, additive) in &self.logger_gates {
+      if target_matches_prefix(metadata.target(), name)
+        && winner.map_or(true, |(wp, _)| name.len() > wp.len())
+      {
+        winner = Some((name.as_str(), *additive));
       }
     }
     let non_additive_gate: Option<&str> = match winner {
